@@ -28,6 +28,14 @@ container, which is what the builders are for, and the documented padding helper
 theorem C20_no_append_onto_caller_memory :
     ∀ x ∈ Footprint.foreignAppends, x ∈ c20DocumentedAppends := by decide
 
+/-- **what a caller hands in is read-only** (regenerated fact `Footprint.paramWrites`): no exported function
+or method writes into a slice it received as a parameter — by an element assignment, `copy`, or by handing it
+(or a reslice, or a local alias of it), directly or through unexported helpers of its package, as the
+destination to `hash.Sum`, `BlockMode.CryptBlocks`, `binary.PutUintNN`, `io.ReadFull`, `Read`, `FillBytes`,
+`Block.Encrypt/Decrypt`, `XORKeyStream`.  (Appends are the theorem above.)  Datagram buffers, ciphertexts,
+nonces, keys and builder arguments stay as the caller left them. -/
+theorem C20_parameters_read_only : Footprint.paramWrites = [] := by decide
+
 /-- non-vacuity: the regenerated list is not empty on the pinned tree (the documented site is found) -/
 example : Footprint.foreignAppends ≠ [] := by decide
 
